@@ -383,6 +383,11 @@ def event(fn, args, site=None, feat=None, timeout=30):
             e["skip"] = "determinization-did-not-terminate-in-time"
     except Exception as ex:  # noqa: BLE001
         e = {"op": fn, "sr": srmodel(args.get("sr", "Bool")), "exc": type(ex).__name__, "note": str(ex)[:200]}
+        if (isinstance(ex, (OverflowError, MemoryError)) and fn == "wop"
+                and str(args.get("fn", "")).split(".")[0] in ("determinize", "min_det")):
+            # a diverging subset construction (weights that grow without bound) ends in a numeric overflow before the
+            # time-out: the same out-of-domain case as a time-out
+            e["skip"] = "determinization-did-not-terminate-in-time"
     e["call"] = call
     e["site"] = site or fn
     if feat:
